@@ -196,6 +196,9 @@ def replay(ob):
         return KEYWORD_INPUT
     if "constant_if.name_is_not_a_parameter" in name:
         return PARAM_SHADOWS_GLOBAL
+    if "eager.eval_op" in name:
+        from props import C17
+        return C17.EVAL_OP_HISTORY
     if name.startswith("C02.to_model_proto."):
         from props import C02
         return C02.replay(ob)
